@@ -252,6 +252,9 @@ class Zeroconf(QuietLogger):
     def notify_all(self) -> None:
         """Notifies all waiting threads and notify listeners."""
         assert self.loop is not None
+        if self.loop.is_closed():
+            # Nothing can be waiting on a loop that has been closed
+            return
         self.loop.call_soon_threadsafe(self.async_notify_all)
 
     def async_notify_all(self) -> None:
